@@ -24,4 +24,51 @@ a = a.replace('''        let mut v: Vec<u64> = Vec::new();
 a = a.replace('bound="len <= 3', 'bound="len == 3')
 a = a.replace("ConIterOfVec", "ConIterOfArray")
 a = a.replace("kind=vec len={len}", "kind=array")
+# the zero-sized-element harness builds its vector by pushing: arrays use a literal
+a = a.replace('''        let mut v = Vec::new();
+        let mut i = 0;
+        while i < len { v.push(Z); i += 1; }
+        let it = ConIterOfArray::new(v);''', '''        let it = ConIterOfArray::new([Z, Z, Z]);''')
+# arrays of length 0 and 1 (the length is a const generic: separate instances)
+extra = '''
+    // @harness name=array_empty props=C01,C03,C05,C10,C11,C12 kind=complete
+    #[kani::proof]
+    #[kani::unwind(4)]
+    fn array_empty() {
+        let it = ConIterOfArray::<0, D>::new([]);
+        assert!(it.try_get_len() == Some(0) && it.has_more() == crate::HasMore::No, "[C11 empty-len] an empty array has nothing to yield");
+        assert!(it.next_id_and_value().is_none(), "[C01 C05 empty-next] a pull on an empty array reports the end");
+        assert!(it.next_chunk(2).is_none(), "[C01 C03 C05 empty-chunk] a chunk pull on an empty array reports the end");
+        { let mut b = it.buffered_iter(2); assert!(b.next().is_none(), "[C01 C03 C05 empty-buffered] a buffered pull with a positive chunk size on an empty array reports the end (and does not panic)"); }
+        let mut calls = 0;
+        it.for_each(2, |_| calls += 1);
+        it.enumerate_for_each(1, |_, _| calls += 1);
+        let acc = it.fold(3, 7usize, |a, _| a + 1);
+        assert!(calls == 0 && acc == 7, "[C12 C01 empty-for-each] for_each / fold on an empty array return at once without calling the function");
+        let mut s = it.into_seq_iter();
+        assert!(s.next().is_none(), "[C10 empty-seq] the remainder of an empty array is empty");
+    }
+
+    // @harness name=array_one props=C01,C02,C03,C08 kind=complete
+    #[kani::proof]
+    #[kani::unwind(4)]
+    fn array_one() {
+        let it = ConIterOfArray::<1, D>::new([D(0)]);
+        let which: bool = kani::any();
+        if which {
+            let x = it.next_id_and_value();
+            assert!(x.is_some() && x.as_ref().unwrap().idx == 0 && x.as_ref().unwrap().value.0 == 0, "[C01 C02 one-next] the single element is delivered with index 0");
+            std::mem::forget(x);
+            assert!(it.next().is_none(), "[C01 C05 one-end] then the end is reported");
+            drop(it);
+            assert!(drops()[0] == 0, "[C08 one-ledger] the delivered element is not dropped by the iterator");
+        } else {
+            { let mut b = it.buffered_iter(4); let ch = b.next(); assert!(ch.is_some(), "[C03 one-chunk] a chunk larger than the array delivers the single element"); let mut ch = ch.unwrap(); assert!(ch.begin_idx == 0 && ch.values.len() == 1, "[C02 C03 one-chunk] begin 0, length 1"); drop(ch); }
+            drop(it);
+            assert!(drops()[0] == 1, "[C08 one-ledger] the unconsumed chunk element is destroyed exactly once");
+        }
+    }
+}
+'''
+a = a[:a.rindex("}")] + extra
 open(os.path.join(d, 'kani/array.rs'), 'w').write(a)
